@@ -99,6 +99,39 @@ def _sources(f: Func, loop: ast.For) -> List[str]:
     return out
 
 
+def pair_keys_rule(ctx: Ctx, rule: str) -> int:
+    """every comprehension / loop of the composer that yields (key, hash) pairs builds the key from its loop variable"""
+    rep = ctx.report
+    prog = ctx.prog
+    comp_f = prog.funcs.get("dds.introspect._build_return_sig")
+    n8 = 0
+    if comp_f is None:
+        raise AnchorError("dds.introspect._build_return_sig not found")
+    for x in comp_f.own_nodes():
+        pair = None
+        loopvars = set()
+        if isinstance(x, (ast.ListComp, ast.GeneratorExp)) and isinstance(x.elt, ast.Tuple) and len(x.elt.elts) == 2:
+            pair = x.elt
+            loopvars = {y.id for g in x.generators for y in ast.walk(g.target) if isinstance(y, ast.Name)}
+        elif isinstance(x, ast.For):
+            loopvars = {y.id for y in ast.walk(x.target) if isinstance(y, ast.Name)}
+            for st in ast.walk(ast.Module(body=x.body, type_ignores=[])):
+                if isinstance(st, ast.Call) and isinstance(st.func, ast.Attribute) and st.func.attr == "append" and st.args and isinstance(st.args[0], ast.Tuple) and len(st.args[0].elts) == 2:
+                    pair = st.args[0]
+        if pair is None or not loopvars:
+            continue
+        n8 += 1
+        key_names = {y.id for y in ast.walk(pair.elts[0]) if isinstance(y, ast.Name)}
+        desc = f"pair key `{unparse(pair.elts[0], 40)}` depends on the loop variable"
+        if key_names & loopvars:
+            rep.ok(rule, comp_f.qname, desc, comp_f.loc(pair))
+        else:
+            rep.bad(rule, comp_f.qname, desc, comp_f.loc(pair), [f"{comp_f.loc(pair)}: the key `{unparse(pair.elts[0], 50)}` is the same for every element of `{unparse(x.generators[0].iter if hasattr(x, 'generators') else x.iter, 40)}`"],
+                    stmt_key(pair), what="argument hashes are combined under one constant key: bindings that permute the values share a signature")
+    return n8
+
+
+
 def run(ctx: Ctx) -> None:
     rep = ctx.report
     prog = ctx.prog
@@ -248,6 +281,74 @@ def run(ctx: Ctx) -> None:
                     stmt_key(n), what="a local variable passed to a kept call is hashed as the module constant of the same name")
     rep.floor("C13.R4", n4, 1)
 
+    # ---- R9: every literal is a literal -------------------------------------------------------------------------------
+    rep.rule("C13.R9", "the literal binder hashes `node.value` for every ast.Constant node: the isinstance test that guards it names ast.Constant itself "
+                       "(ast.NameConstant / Num / Str only match some constants: the others fall back to the call-site key, and the same call gets another "
+                       "signature when made directly)")
+    n9 = 0
+    for g_ in [lit] + list(lit.nested.values()) + [h_ for h_ in prog.module("dds.fun_args").funcs.values() if h_ is not lit and h_ is not rt]:
+        for x in g_.own_nodes():
+            if isinstance(x, ast.Call) and (prog.dotted(g_, x.func) or "") == "dds.fun_args.dds_hash" and x.args and isinstance(x.args[0], ast.Attribute) and x.args[0].attr == "value":
+                gcfg = cfg_of(g_)
+                tests = [b for b in gcfg.nodes if b.kind == "branch" and isinstance(b.ast, ast.Call) and unparse(b.ast.func) == "isinstance" and len(b.ast.args) == 2]
+                n9 += 1
+                names = set()
+                from .common import dominated as _dom9
+                for b in tests:
+                    if b.label == "T" and _dom9(ctx, g_, x, [b]) is None:
+                        t_ = b.ast.args[1]
+                        names |= {unparse(e_).split(".")[-1] for e_ in (t_.elts if isinstance(t_, ast.Tuple) else [t_])}
+                    if b.label == "F":
+                        # guard-clause form: `if not isinstance(node, T): return None`
+                        others = [o for o in gcfg.nodes if o.kind == "branch" and o.origin is b.origin and o.label == "T"]
+                        if _dom9(ctx, g_, x, [b]) is None and False:
+                            pass
+                desc = f"{g_.name}: `{unparse(x, 40)}` is reached for every ast.Constant"
+                if not names:
+                    rep.info("C13.R9", g_.qname, "the hashing of `.value` is not guarded by an isinstance test that was understood (not judged)", g_.loc(x))
+                elif "Constant" in names:
+                    rep.ok("C13.R9", g_.qname, desc, g_.loc(x))
+                else:
+                    rep.bad("C13.R9", g_.qname, desc, g_.loc(x), [f"{g_.loc(x)}: guarded by isinstance(.., {sorted(names)})",
+                            "`ast.NameConstant` only matches True / False / None: number and string literals of a kept call seen in source are left unknown, the call is keyed by its "
+                            "call site, and `dds.eval(pipeline)` then a direct `dds.keep(p, scale, 21, 'kg')` compute twice"], stmt_key(x), what="only some literal kinds are hashed from the source")
+    rep.floor("C13.R9", n9, 1)
+
+    # ---- R7: a default is a run-time value: both binders hash it with the value hasher itself ----------------------------
+    rep.rule("C13.R7", "in both binders the default of an omitted parameter is hashed by dds_hash (not by the literal-node helper, which answers None for "
+                       "anything that is not an AST constant)")
+    n7 = 0
+    for bf in (rt, lit):
+        members_ = [bf] + list(bf.nested.values())
+        for g_ in members_:
+            for x in g_.own_nodes():
+                if isinstance(x, ast.Attribute) and x.attr == "default" and isinstance(x.ctx, ast.Load):
+                    par = g_.module.parent.get(x)
+                    if isinstance(par, ast.Assign) and par.value is x and len(par.targets) == 1 and isinstance(par.targets[0], ast.Name):
+                        # through a local copy: the call that receives the copy
+                        fl7 = flow_of(prog, g_)
+                        for y in g_.own_nodes():
+                            if isinstance(y, ast.Call) and any(isinstance(a, ast.Name) and any(d.stmt is par for d in fl7.root_defs(a)) for a in y.args if isinstance(a, ast.Name) and cfg_of(g_).nodes_of(a)):
+                                par = y
+                                x = [a for a in y.args if isinstance(a, ast.Name)][0]
+                                break
+                    if isinstance(par, ast.Call) and x in par.args:
+                        n7 += 1
+                        callee = prog.dotted(g_, par.func) or unparse(par.func)
+                        desc = f"{bf.name}: `{unparse(par, 40)}` hashes the default with the value hasher"
+                        if callee == "dds.fun_args.dds_hash":
+                            rep.ok("C13.R7", g_.qname, desc, g_.loc(par))
+                        else:
+                            rep.bad("C13.R7", g_.qname, desc, g_.loc(par), [f"{g_.loc(par)}: the default goes through `{unparse(par.func)}`",
+                                    "a kept call in source that omits a defaulted parameter gets an unknown binding (keyed by its call site) while the explicit-default spelling "
+                                    "and the direct call are keyed by the binding: equal bindings, different signatures"], stmt_key(par), what="the default of an omitted parameter is not hashed like a passed value")
+    rep.floor("C13.R7", n7, 1)
+
+    rep.rule("C13.R8", "in the signature composer every comprehension / loop that yields (key, hash) pairs builds the key from its loop variable (a constant "
+                       "key makes the xor combiner forget which parameter holds which value: f(2, 9) == f(9, 2), and equal pairs cancel)")
+    n8 = pair_keys_rule(ctx, "C13.R8")
+    rep.floor("C13.R8", n8, 3)
+
     # ---- R6: distinct string values get distinct hashes ------------------------------------------------------------
     from .c05 import algo_preimage_rule
     rep.rule("C13.R6", "as C05.R8: the digest helpers hash the bound value itself (no strip / case folding / replace before hashlib): bindings that differ "
@@ -281,7 +382,7 @@ def run(ctx: Ctx) -> None:
     for n in lit.own_nodes():
         if isinstance(n, ast.Attribute) and n.attr == "default" and isinstance(lit.module.parent.get(n), ast.Call):
             call = lit.module.parent.get(n)
-            if not (isinstance(call.func, ast.Name) and "hash" in call.func.id):
+            if n not in call.args:
                 continue
             n5 += 1
             desc = f"`{unparse(call, 40)}` (parameter omitted -> default) is reached only when the call has no ** mapping"
